@@ -149,7 +149,7 @@ def snapshot_run(run, rng, seed, flavour, conc, fail, quick):
             uninstall()
         ok = bool(o and o.ok)
         same = False
-        free = slots.get('free', -1)
+        free = slots.get('free', o.repo._slots.qsize() if (o is not None and getattr(o, 'repo', None) is not None) else -1)   # the command may fail before it starts (unlock)
         if ok:
             def norm(v):
                 return (sorted(v.chunks), sorted((f['path'], f['digest'], tuple(sorted((c['counter'], tuple(c['range'])) for c in f['chunks']))) for f in v.data['files']))
@@ -194,7 +194,7 @@ def restore_run(run, rng, seed, flavour, conc, fail, quick):
             uninstall()
         ok = bool(o and o.ok)
         evs = events_for_trace(ctl, 'restore', file_ids)
-        free = slots.get('free', -1) if not hung else -1
+        free = slots.get('free', o.repo._slots.qsize() if (o is not None and getattr(o, 'repo', None) is not None) else -1) if not hung else -1
         evs.append({'a': 'end', 'ok': ok, 'fault': fail is not None, 'same': bool(ok and check_restored(tgt, files, d)), 'free': free, 'hung': bool(hung),
                     'etype': o.etype if o else 'hung'})
         run.case(('restore', seed, flavour, conc, fail), nontrivial=len(evs) > 8)
